@@ -29,5 +29,9 @@ def check(run):
     run.gen("Gen_C04", consts={"Part": "all"})
     run.gen("Gen_MapBodies")
     common.gen_structs(run)
+    # values that come from constructors rather than parsers (every key-type pair with keys of the table sizes, the size-defect variants,
+    # the other structures' constructors): constructor, Validate, serialisation and re-parse all return normally
+    for fam in ("ident", "keycert", "cert", "raddr", "lease", "offsig", "ls2", "mapping"):
+        run.gen("Gen_Build", consts={"Fam": fam}, tag="Gen_Build_" + fam)
     run.replay_and_judge()
     return vlib.finish(run, "exploration", RULE, ASSUME)
